@@ -248,7 +248,12 @@ impl<'r> Gen<'r> {
     fn plan(&mut self) {
         let m = self.rng.range(1, self.cfg.max_modules);
         // two modules share the base name `a.oal` in different directories
-        let all_files = ["main.oal", "a.oal", "lib/a.oal", "lib/c.oal"];
+        // with four modules, lib/c.oal can import its sibling lib/a.oal as "a.oal" — the spelling main uses for a.oal
+        let all_files: [&str; 4] = if m == 4 {
+            ["main.oal", "a.oal", "lib/c.oal", "lib/a.oal"]
+        } else {
+            ["main.oal", "a.oal", "lib/a.oal", "lib/c.oal"]
+        };
         self.files = all_files[..m].iter().map(|s| s.to_string()).collect();
         self.imports = vec![Vec::new(); m];
         // Every module i > 0 is imported by at least one module k < i.
@@ -1237,10 +1242,30 @@ impl<'r> Gen<'r> {
         sc2.recs.push((binder.clone(), ty.clone(), id));
         // The body is a cut point: headed by a constructor of the kind.
         let body = self.gen_head(ty, depth.saturating_sub(1).max(1), &sc2, true);
-        E::Rec {
+        let r = E::Rec {
             binder,
             id,
             body: Box::new(body),
+        };
+        // an annotation on the `rec` term itself is a definition-site annotation: it belongs to the component and to
+        // nothing that consumes the reference (unlike use-site annotations on references, which the generator avoids)
+        if self.cfg.annotations && self.rng.chance(1, 4) {
+            let a = self.gen_ann(&r, ty);
+            if self.rng.chance(1, 2) {
+                E::Ann {
+                    pre: vec![a],
+                    e: Box::new(r),
+                    post: None,
+                }
+            } else {
+                E::Ann {
+                    pre: vec![],
+                    e: Box::new(r),
+                    post: Some(a),
+                }
+            }
+        } else {
+            r
         }
     }
 
